@@ -322,6 +322,11 @@ def _rm_setup(case, mode):
 
 def classify_stage(f, case):
     w = f['witness']
+    if case.get('route') == 'mask':
+        if 'hunk' in f['label'] + str(f.get('exc')):
+            return 'F17:p-value-mask-with-no-gene-passing:_merge_masks-chunks=(0,)'
+        if 'fewer than two cells' in f['label']:
+            return 'F18:mask-route-records-markers-for-one-cell-clusters'
     if all(v == 0 for k, v in w.items() if k.startswith('n_cells[')) and \
             'hunk' in f['label'] + str(f.get('exc')):
         return 'F5:no-marker-at-all:_merge_sparse_by_pair_files-chunks=(0,)'
@@ -344,7 +349,8 @@ def h_marker_stage(ctx, case):
 
 HARNESSES = [
     Harness('marker_table_stage', h_marker_stage, setup=_rm_setup,
-            cases=[{'vary': ['c0', 'c2', 'c3']}],
+            cases=[{'vary': ['c0', 'c2', 'c3']},
+                   {'vary': ['c3'], 'default_size': 1}],
             thorough_cases=[{}],
             funcs=['markers.find_markers_for_all_taxonomy_pairs',
                    'create_sparse_by_pair_marker_file', '_prep_output_file',
@@ -366,7 +372,8 @@ HARNESSES = [
                     't CDF)',
             expect_reach=['written'], split=32),
     Harness('p_value_mask_route_stage', h_marker_stage, setup=_rm_setup,
-            cases=[{'vary': ['c0', 'c3'], 'route': 'mask'}],
+            cases=[{'vary': ['c0', 'c3'], 'route': 'mask'},
+                   {'vary': ['c3'], 'default_size': 1, 'route': 'mask'}],
             thorough_cases=[{'route': 'mask'}],
             funcs=['p_value_mask.create_p_value_mask_file',
                    '_create_p_value_mask_file', '_p_values_worker',
